@@ -411,6 +411,12 @@ class NPFacade:
             M = concretize_int(M)
         return real_np.blackman(M)
 
+    def kaiser(self, M, beta):
+        """np.kaiser with a symbolic length (concretised by forking); beta concrete."""
+        if isinstance(M, SInt):
+            M = concretize_int(M)
+        return real_np.kaiser(M, beta)
+
     def arange(self, *a, **k):
         if "dtype" in k:
             k["dtype"] = _dt(k["dtype"])
